@@ -6,7 +6,8 @@ from mir import Body, op_local
 
 LEVEL = "other"
 EXPLANATION = ("Reject-path shape conditions decided on all paths: (R16.1) the containers undo or never take the reservation before answering 'full': AtomicMove::"
-               "leak_slot_internal returns None only on the success edge of the recede CAS (try_unleak_slot_internal), FullSyncMove::leak_slot_internal returns None with "
+               "leak_slot_internal returns None only on the success edge of the recede CAS (try_unleak_slot_internal), both reservation sides of the lock-free ring (leak_slot_internal and "
+               "consume_leaking_internal -- the reject path of every pool allocation) answer None with nothing left reserved (computed typestate summary), FullSyncMove::leak_slot_internal returns None with "
                "the lock released (computed summary: held iff Some), the zero-copy containers and the pool answer None only when the free list handed out nothing; the "
                "`report_full_fn` every channel passes is the constant false (a true there turns the reject path into a spin-wait); (R16.2) in every send / send_with / "
                "send_with_async of the five Uni channels and the two ogre_arc Multi channels, between the failure edge of the reservation and the Transient verdict there is "
@@ -53,6 +54,17 @@ def check(ctx):
     for nb in nones:
         ctx.ob("R16.1", f"{k}|none-only-after-successful-recede", true_t is not None and body.dominates(true_t, nb), body.loc(nb),
                "`None` (queue full) is answered only on the success edge of the recede CAS: the reservation counter is back to its value, no capacity is consumed")
+    # typestate summaries of both reservation sides: answering None leaves nothing reserved (the consumer side is the reject path of every pool allocation whose
+    # free list is this ring: a read reservation left behind hides a free slot for good)
+    for fn, kind in (("leak_slot_internal", "ring.w"), ("consume_leaking_internal", "ring.r")):
+        kf = R.AM + "::" + fn
+        an_ = eng.analyse(kf)
+        none_holding = [o for o in an_.outcomes if o[0] == ("variant", 0) and any(s_ == "+" for (s_, _) in o[1])]
+        some_free = [o for o in an_.outcomes if o[0] == ("variant", 1) and not any(s_ == "+" and r_[0] == kind for (s_, r_) in o[1])]
+        ctx.ob("R16.1", f"{kf}|none-leaves-nothing-reserved", not none_holding and not an_.undecided, f"{eng.body(kf).f['file']}:{eng.body(kf).f['line']}",
+               f"computed summary {sorted((str(o[0]), sorted(str(x) for x in o[1])) for o in an_.outcomes)}: "
+               + ("`None` is answered only with the reservation counter back at its value" if not none_holding else
+                  "a path answers `None` with the reservation still taken (the recede CAS lost and was not retried): the counter stays one ahead and one slot of capacity is gone for good"))
     kk = R.AM + "::try_unleak_slot_internal"
     b2 = Body(fx.fn(kk)); d2 = D.Dag(b2)
     cas = [(b, c) for (b, c) in b2.calls if (R.atomic_target(b2, c) or (0, 0, ""))[1:2] == ("enqueuer_tail",) and "compare_exchange" in (R.atomic_target(b2, c) or (0, 0, ""))[2]]
